@@ -111,6 +111,11 @@ SubstValid(q, child) ==
                           /\ DerivedOK(s, q.mt1, blocking)
        [] child = "M2" -> /\ "sub" \notin EBlock(s)
                           /\ DerivedOK(s, q.mt2, blocking)
+(* PARTIAL validation (C20): the child selected by an explicit path is validated against ITS OWN   *)
+(* global declaration - substitution blocks say nothing about it, only its own abstractness does *)
+SubstPartialValid(q, child) == CASE child = "H" -> ~q.eabs [] child = "M1" -> ~q.m1abs [] child = "M2" -> TRUE
+ASSUME \A q \in {x \in SubSchemas : SubWellFormed(x)} : \A c \in {"H", "M1", "M2"} :
+         SubstValid(q, c) => SubstPartialValid(q, c)
 
 ------------------------------------------------------------------------------
 (* Laws (obligation A) *)
@@ -232,7 +237,7 @@ Emit == CASE Mode = "xsitype" ->
                               word |-> Variant(cfg, inst.var), valid |-> ElemValid(cfg, inst)]))
           [] Mode = "subst" ->
                PrintT(ToJson([cfg |-> cfg, inst |-> inst, types |-> TypesOf(AsSchema(cfg)),
-                              valid |-> SubstValid(cfg, inst)]))
+                              valid |-> SubstValid(cfg, inst), pvalid |-> SubstPartialValid(cfg, inst)]))
           [] Mode = "simple" -> PrintT(ToJson([cfg |-> cfg, inst |-> inst, valid |-> SimpleValid(cfg, inst)]))
           [] Mode = "alt" -> PrintT(ToJson([cfg |-> cfg, inst |-> inst, sel |-> Select(cfg, inst),
                                             valid |-> AltValid(cfg, inst)]))
